@@ -1,4 +1,5 @@
 import NasimModel.Model.Wire
+import NasimModel.Model.LoaderWire
 /-!
 Driver: reads one request per line on stdin, answers one line per query on stdout.
 Scenario-definition lines produce no output. See `NasimModel/Model/Wire.lean` for tokens.
@@ -135,6 +136,7 @@ def handle (c : Cfg) (line : String) : Cfg × Option String :=
           ++ [sep] ++ flatten2 oP.obs
         (c, some (join out))
       | _, _ => (c, some "badq")
+    | "DOC" => (c, some (NASim.Load.docReply rest))
     | "E" =>
       match ts with
       | fo :: _ :: ops => (c, some (join (runEnv (Env.make sc (b fo.int)) ops [])))
